@@ -1,6 +1,7 @@
 import Driver.Codec
 import CardVerif.Model.Pot
 import CardVerif.Spec.SidePot
+import Driver.Poker
 open Lean CardVerif CardVerif.Codec
 
 namespace CardVerif.Driver
@@ -40,6 +41,7 @@ def handle (j : Json) : P Json := do
   match ← asStr (← fld j "op") with
   | "rake" => opRake j
   | "settle" => opSettle j
+  | "poker" => opPoker j
   | op => throw s!"unknown op {op}"
 
 end CardVerif.Driver
